@@ -50,17 +50,18 @@ LogProgs == {
 
 NoLc == [fn |-> "none"]
 
-Tx(kind, from, to, ckind, ops, lc, gas) ==
-  [kind |-> kind, from |-> from, to |-> to, ckind |-> ckind, ops |-> ops, lc |-> lc, gas |-> gas]
-
 HTok(n) == "h" \o ToString(n)
 ITok(n) == "i" \o ToString(n)
 XTok(n) == "x" \o ToString(n)
 TTok(n) == "t" \o ToString(n)          \* generator-side identity only
 
+Tx(kind, from, to, ckind, ops, lc, gas) ==
+  [kind |-> kind, from |-> from, to |-> to, ckind |-> ckind, ops |-> ops, lc |-> lc, gas |-> gas, txid |-> XTok(ctr.x)]
+
 CurHash == IF cur.n > 0 THEN cur.hash ELSE HTok(ctr.h)
 CurTs   == IF cur.n > 0 THEN cur.ts ELSE 100 + NextH
 Cells   == {a \in DOMAIN world.code : world.code[a] = "cell"}
+Probes  == {a \in DOMAIN world.code : world.code[a] = "probe"}
 
 Push(step) == sched' = Append(sched, step)
 Bump(f) == ctr' = [ctr EXCEPT ![f] = @ + 1]
@@ -208,6 +209,42 @@ GLogCall ==
   \E from \in {RandomElement(Senders)}, to \in {RandomElement(Cells)}, ops \in {RandomElement(LogProgs)} :
     GAdd("call", Tx("call", from, to, NULL, ops, NoLc, "ample"), "hex")
 
+GDeployProbe ==
+  /\ Cardinality(Probes) < 2
+  /\ \E from \in {RandomElement(Senders)} : GAdd("deploy", Tx("create", from, NULL, "probe", <<>>, NoLc, "ample"), "hex")
+
+GProbeCall ==
+  /\ Probes # {}
+  /\ \E from \in {RandomElement(Senders)}, to \in {RandomElement(Probes)} :
+       GAdd("call", Tx("call", from, to, NULL, <<>>, NoLc, "ample"), "hex")
+
+GProbeTransact ==
+  /\ Started /\ Probes # {}
+  /\ \E s \in {RandomElement(Signers)}, d \in {Pick(<<0, 0, 1, 1, 2>>)}, to \in {RandomElement(Probes)} :
+       LET an == Nonce(world, s)
+           nonce == an + d
+           tx == Tx("call", s, to, NULL, <<>>, NoLc, "ample")
+           id == TTok(ctr.x)
+       IN  /\ Push(TransactStep(tx, nonce, "own"))
+           /\ IF nonce > an
+              THEN TransactPark(id, tx, ITok(ctr.i), nonce, XTok(ctr.x))
+              ELSE LET o0 == Outcome(world, tx, NoSeen)
+                       ns == DrainSeq(pool, s, an + 1)
+                       seens == <<[status |-> 1, logs |-> <<>>, created |-> NULL]>> \o PredSeens(o0.world, pool, s, ns)
+                       drained == [k \in (DOMAIN pool) \ {<<s, n>> : n \in {ns[j] : j \in DOMAIN ns}} |-> pool[k]]
+                       nx == an + 1 + Len(ns)
+                       pnew == [k \in (DOMAIN drained) \ {<<s, nx>>} |-> drained[k]]
+                   IN  TransactExec(id, tx, ITok(ctr.i), cur.n, CurHash, CurTs, seens, pnew)
+  /\ ctr' = [ctr EXCEPT !.i = @ + 1, !.x = @ + 1,
+                        !.h = IF cur.n = 0 /\ cur'.n > 0 THEN @ + 1 ELSE @]
+
+GMineFar ==
+  /\ cur.n = 0
+  /\ \E k \in {Pick(<<2, 9, 250, 255>>)} :
+       /\ MineOk(k, 100 + NextH)
+       /\ Push([op |-> "mine", k |-> k, ts |-> 100 + NextH])
+  /\ UNCHANGED ctr
+
 GDeployCell ==
   /\ Cardinality(Cells) < 2
   /\ \E from \in {RandomElement(Senders)} : GAdd("deploy", Tx("create", from, NULL, "cell", <<>>, NoLc, "ample"), "hex")
@@ -263,6 +300,9 @@ Weighted ==
                            ELSE (GLogCall \/ GLogCall \/ GLogCall \/ GFinalise \/ GFinalise \/ GCommit)
     [] Focus = "logsnc" -> IF Cardinality(Cells) < 2 THEN (GDeployCell \/ GFinalise)
                            ELSE (GLogCall \/ GLogCall \/ GLogCall \/ GFinalise \/ GFinalise)
+    [] Focus = "probe"  -> IF Probes = {} THEN (GDeployProbe \/ GFinalise)
+                           ELSE (GProbeCall \/ GProbeCall \/ GProbeTransact \/ GProbeTransact \/ GFinalise \/ GFinalise \/ GMine \/ GMineFar
+                                  \/ GReorg \/ GRestart \/ GCommit \/ GLedger \/ GDeployProbe)
     [] Focus = "commit" -> GCall \/ GDeploy \/ GFinalise \/ GFinalise \/ GCommit \/ GClear \/ GRestart \/ GTransact \/ GLedger \/ GMine
     [] OTHER -> GDeploy \/ GCall \/ GCall \/ GLedger \/ GUserLedger \/ GTransact \/ GFinalise \/ GFinalise \/ GMine
                  \/ GCommit \/ GClear \/ GRestart \/ GReorg \/ GBad
